@@ -135,7 +135,7 @@ func forEachTriple(r *vk.Run, f func(t triple)) (exhaustive int64, random int64)
 			defer wg.Done()
 			rng := r.Rand(fmt.Sprintf("triples-%d", w))
 			for i := 0; i < per; i++ {
-				cfgSync := gen.RandomTreeConfig{Names: []string{"a", "b", "c"}, MaxDepth: 1 + rng.Intn(4), DirBias: 0.55, AbsentBias: 0.35}
+				cfgSync := gen.RandomTreeConfig{Names: []string{"a", "ab", "b"}, MaxDepth: 1 + rng.Intn(4), DirBias: 0.55, AbsentBias: 0.35}
 				cfgAll := cfgSync
 				cfgAll.Unsync = true
 				docker := rng.Intn(4) == 0
